@@ -282,6 +282,32 @@ type RulesBasedSamplerConfig struct {
 	CheckNestedFields bool                     `json:"checknestedfields" yaml:"CheckNestedFields,omitempty"`
 }
 
+// initConditions runs Init on every condition of every rules-based sampler. The
+// file config calls it once, right after loading the rules and before the
+// configuration is visible to anyone else, so that conditions are never
+// modified while request handlers, collector workers and the /query endpoints
+// read them. Errors are kept in the condition and reported by the next Init().
+func (c *V2SamplerConfig) initConditions() {
+	if c == nil {
+		return
+	}
+	for _, choice := range c.Samplers {
+		if choice == nil || choice.RulesBasedSampler == nil {
+			continue
+		}
+		for _, rule := range choice.RulesBasedSampler.Rules {
+			if rule == nil {
+				continue
+			}
+			for _, condition := range rule.Conditions {
+				if condition != nil {
+					_ = condition.Init()
+				}
+			}
+		}
+	}
+}
+
 func (r *RulesBasedSamplerConfig) GetSamplingFields() []string {
 	fields := make(generics.Set[string], 0)
 
@@ -384,25 +410,30 @@ type RulesBasedSamplerCondition struct {
 
 	// initOnce ensures Init() runs only once to prevent races
 	initOnce sync.Once `json:"-" yaml:"-"`
+	// initErr is the result of that one run; every Init() call returns it
+	initErr error `json:"-" yaml:"-"`
 }
 
+// Init prepares the condition for evaluation. It rewrites the condition (Field is
+// moved into Fields, Matches is set), so it must have run before the condition is
+// shared between goroutines: the file config calls it for every condition when the
+// rules are loaded (see initConditions); later calls only return the same result.
 func (r *RulesBasedSamplerCondition) Init() error {
-	var err error
 	r.initOnce.Do(func() {
 		// if Field is specified, we move it into Fields so that we don't have to deal with checking both.
 		if r.Field != "" {
 			// we're going to check that both aren't defined -- this should have been caught by validation
 			// but we'll also check here just in case.
 			if len(r.Fields) > 0 {
-				err = fmt.Errorf("both Field and Fields are defined in a single condition")
+				r.initErr = fmt.Errorf("both Field and Fields are defined in a single condition")
 				return
 			}
 			// now we know it's safe to move Field into Fields
 			r.Fields = []string{r.Field}
 		}
-		err = r.setMatchesFunction()
+		r.initErr = r.setMatchesFunction()
 	})
-	return err
+	return r.initErr
 }
 
 func (r *RulesBasedSamplerCondition) String() string {
